@@ -822,3 +822,41 @@ func ProveLeqAt(fn *ssa.Function, at ssa.Instruction, a, b ssa.Value) bool {
 	f := factsAt(fn, at)
 	return f.leq(mkTerm(a), mkTerm(b))
 }
+
+// LenKeyOfField returns the structural key under which len(<x>.field) is known in fn's facts (from any load of that
+// field in fn), or "".
+func LenKeyOfField(fn *ssa.Function, field *types.Var) string {
+	for _, b := range fn.Blocks {
+		for _, in := range b.Instrs {
+			if u, ok := in.(*ssa.UnOp); ok && u.Op == token.MUL && FieldOf(u.X) == field {
+				return objKey(u)
+			}
+		}
+	}
+	return ""
+}
+
+// ProveLeqLen: v <= len(lenKey) holds whenever `at` executes (comparisons that dominate it), or - with an edge given -
+// whenever control passes from pred to succ (the comparisons that dominate pred plus pred's own branch condition).
+func ProveLeqLen(fn *ssa.Function, at ssa.Instruction, pred, succ *ssa.BasicBlock, v ssa.Value, lenKey string) bool {
+	var f *facts
+	if pred != nil {
+		f = factsAt(fn, pred.Instrs[len(pred.Instrs)-1])
+		if iff, ok := pred.Instrs[len(pred.Instrs)-1].(*ssa.If); ok && pred.Succs[0] != pred.Succs[1] {
+			if pred.Succs[0] == succ {
+				f.learnCond(iff.Cond, true, 0)
+			} else if pred.Succs[1] == succ {
+				f.learnCond(iff.Cond, false, 0)
+			}
+		}
+	} else {
+		f = factsAt(fn, at)
+	}
+	return f.leq(mkTerm(v), term{lenOf: lenKey})
+}
+
+// ProveLeqConstAt: v <= c follows from the comparisons that dominate instruction at.
+func ProveLeqConstAt(fn *ssa.Function, at ssa.Instruction, v ssa.Value, c int64) bool {
+	f := factsAt(fn, at)
+	return f.leq(mkTerm(v), term{isConst: true, c: c})
+}
